@@ -694,6 +694,13 @@ func (vc *VC) specCall(sc *SpecScope, x *SCall) *Value {
 				as := args()
 				vc.declareErrIs()
 				return boolV(app("errIs", as[0].Term, as[1].Term))
+			case "deref":
+				// deref(p): the cell a pointer obtained with & points to
+				a := args()[0]
+				if a.Addr == nil {
+					vc.specFail(sc, "deref of a pointer whose target is not statically known")
+				}
+				return vc.load(sc.cur, *a.Addr)
 			case "qmarks":
 				return intV(app("qmarks", args()[0].Term), nil)
 			case "str":
